@@ -228,11 +228,13 @@ package altair
 //@     invariant old(spec != nil && epc != nil && state != nil && epc.PreviousEpoch != nil && epc.CurrentEpoch != nil && len(flats) < 4611686018427387904 && epc.PreviousEpoch.Epoch < 4611686018427387904 && len(part_raw(st_prevpart(state))) == len(flats) && len(part_raw(st_curpart(state))) == len(flats) && (forall a :: {epc.PreviousEpoch.ActiveIndices[a]} 0 <= a && a < len(epc.PreviousEpoch.ActiveIndices) ==> epc.PreviousEpoch.ActiveIndices[a] < len(flats)) && (forall a :: {epc.CurrentEpoch.ActiveIndices[a]} 0 <= a && a < len(epc.CurrentEpoch.ActiveIndices) ==> epc.CurrentEpoch.ActiveIndices[a] < len(flats))) ==> (forall a :: {out.EligibleIndices[a]} 0 <= a && a < len(out.EligibleIndices) ==> out.EligibleIndices[a] < i && att_eligible(flats[out.EligibleIndices[a]], prevEpoch))
 //@     invariant old(spec != nil && epc != nil && state != nil && epc.PreviousEpoch != nil && epc.CurrentEpoch != nil && len(flats) < 4611686018427387904 && epc.PreviousEpoch.Epoch < 4611686018427387904 && len(part_raw(st_prevpart(state))) == len(flats) && len(part_raw(st_curpart(state))) == len(flats) && (forall a :: {epc.PreviousEpoch.ActiveIndices[a]} 0 <= a && a < len(epc.PreviousEpoch.ActiveIndices) ==> epc.PreviousEpoch.ActiveIndices[a] < len(flats)) && (forall a :: {epc.CurrentEpoch.ActiveIndices[a]} 0 <= a && a < len(epc.CurrentEpoch.ActiveIndices) ==> epc.CurrentEpoch.ActiveIndices[a] < len(flats))) ==> (forall a, b :: {out.EligibleIndices[a], out.EligibleIndices[b]} 0 <= a && a < b && b < len(out.EligibleIndices) ==> out.EligibleIndices[a] < out.EligibleIndices[b])
 //@   loop 2
-//@     invariant old(spec != nil && epc != nil && state != nil && epc.PreviousEpoch != nil && epc.CurrentEpoch != nil && len(flats) < 4611686018427387904 && epc.PreviousEpoch.Epoch < 4611686018427387904 && len(part_raw(st_prevpart(state))) == len(flats) && len(part_raw(st_curpart(state))) == len(flats) && (forall a :: {epc.PreviousEpoch.ActiveIndices[a]} 0 <= a && a < len(epc.PreviousEpoch.ActiveIndices) ==> epc.PreviousEpoch.ActiveIndices[a] < len(flats)) && (forall a :: {epc.CurrentEpoch.ActiveIndices[a]} 0 <= a && a < len(epc.CurrentEpoch.ActiveIndices) ==> epc.CurrentEpoch.ActiveIndices[a] < len(flats))) ==> (out != nil && eqseq(prevEpochParticipation, part_raw(st_prevpart(state))) && eqseq(currEpochParticipation, part_raw(st_curpart(state))))
-//@     invariant old(spec != nil && epc != nil && state != nil && epc.PreviousEpoch != nil && epc.CurrentEpoch != nil && len(flats) < 4611686018427387904 && epc.PreviousEpoch.Epoch < 4611686018427387904 && len(part_raw(st_prevpart(state))) == len(flats) && len(part_raw(st_curpart(state))) == len(flats) && (forall a :: {epc.PreviousEpoch.ActiveIndices[a]} 0 <= a && a < len(epc.PreviousEpoch.ActiveIndices) ==> epc.PreviousEpoch.ActiveIndices[a] < len(flats)) && (forall a :: {epc.CurrentEpoch.ActiveIndices[a]} 0 <= a && a < len(epc.CurrentEpoch.ActiveIndices) ==> epc.CurrentEpoch.ActiveIndices[a] < len(flats))) ==> (out.CurrEpochUnslashedTargetStake == part_sum2(flats, part_raw(st_curpart(state)), epc.PreviousEpoch.ActiveIndices, rangeindex + 1))
+//@     invariant old(spec != nil && epc != nil && state != nil && epc.PreviousEpoch != nil && epc.CurrentEpoch != nil && len(flats) < 4611686018427387904 && epc.PreviousEpoch.Epoch < 4611686018427387904 && len(part_raw(st_prevpart(state))) == len(flats) && len(part_raw(st_curpart(state))) == len(flats) && (forall a :: {epc.PreviousEpoch.ActiveIndices[a]} 0 <= a && a < len(epc.PreviousEpoch.ActiveIndices) ==> epc.PreviousEpoch.ActiveIndices[a] < len(flats)) && (forall a :: {epc.CurrentEpoch.ActiveIndices[a]} 0 <= a && a < len(epc.CurrentEpoch.ActiveIndices) ==> epc.CurrentEpoch.ActiveIndices[a] < len(flats))) ==> (out != nil && eqseq(prevEpochParticipation, part_raw(st_prevpart(state))) && eqseq(currEpochParticipation, part_raw(st_curpart(state))) && out.CurrEpochUnslashedTargetStake == 0)
 //@     invariant old(spec != nil && epc != nil && state != nil && epc.PreviousEpoch != nil && epc.CurrentEpoch != nil && len(flats) < 4611686018427387904 && epc.PreviousEpoch.Epoch < 4611686018427387904 && len(part_raw(st_prevpart(state))) == len(flats) && len(part_raw(st_curpart(state))) == len(flats) && (forall a :: {epc.PreviousEpoch.ActiveIndices[a]} 0 <= a && a < len(epc.PreviousEpoch.ActiveIndices) ==> epc.PreviousEpoch.ActiveIndices[a] < len(flats)) && (forall a :: {epc.CurrentEpoch.ActiveIndices[a]} 0 <= a && a < len(epc.CurrentEpoch.ActiveIndices) ==> epc.CurrentEpoch.ActiveIndices[a] < len(flats))) ==> (out.PrevEpochUnslashedStake.SourceStake == part_sum1(flats, part_raw(st_prevpart(state)), epc.PreviousEpoch.ActiveIndices, rangeindex + 1))
 //@     invariant old(spec != nil && epc != nil && state != nil && epc.PreviousEpoch != nil && epc.CurrentEpoch != nil && len(flats) < 4611686018427387904 && epc.PreviousEpoch.Epoch < 4611686018427387904 && len(part_raw(st_prevpart(state))) == len(flats) && len(part_raw(st_curpart(state))) == len(flats) && (forall a :: {epc.PreviousEpoch.ActiveIndices[a]} 0 <= a && a < len(epc.PreviousEpoch.ActiveIndices) ==> epc.PreviousEpoch.ActiveIndices[a] < len(flats)) && (forall a :: {epc.CurrentEpoch.ActiveIndices[a]} 0 <= a && a < len(epc.CurrentEpoch.ActiveIndices) ==> epc.CurrentEpoch.ActiveIndices[a] < len(flats))) ==> (out.PrevEpochUnslashedStake.TargetStake == part_sum2(flats, part_raw(st_prevpart(state)), epc.PreviousEpoch.ActiveIndices, rangeindex + 1))
 //@     invariant old(spec != nil && epc != nil && state != nil && epc.PreviousEpoch != nil && epc.CurrentEpoch != nil && len(flats) < 4611686018427387904 && epc.PreviousEpoch.Epoch < 4611686018427387904 && len(part_raw(st_prevpart(state))) == len(flats) && len(part_raw(st_curpart(state))) == len(flats) && (forall a :: {epc.PreviousEpoch.ActiveIndices[a]} 0 <= a && a < len(epc.PreviousEpoch.ActiveIndices) ==> epc.PreviousEpoch.ActiveIndices[a] < len(flats)) && (forall a :: {epc.CurrentEpoch.ActiveIndices[a]} 0 <= a && a < len(epc.CurrentEpoch.ActiveIndices) ==> epc.CurrentEpoch.ActiveIndices[a] < len(flats))) ==> (out.PrevEpochUnslashedStake.HeadStake == part_sum4(flats, part_raw(st_prevpart(state)), epc.PreviousEpoch.ActiveIndices, rangeindex + 1))
+//@   loop 3
+//@     invariant old(spec != nil && epc != nil && state != nil && epc.PreviousEpoch != nil && epc.CurrentEpoch != nil && len(flats) < 4611686018427387904 && epc.PreviousEpoch.Epoch < 4611686018427387904 && len(part_raw(st_prevpart(state))) == len(flats) && len(part_raw(st_curpart(state))) == len(flats) && (forall a :: {epc.PreviousEpoch.ActiveIndices[a]} 0 <= a && a < len(epc.PreviousEpoch.ActiveIndices) ==> epc.PreviousEpoch.ActiveIndices[a] < len(flats)) && (forall a :: {epc.CurrentEpoch.ActiveIndices[a]} 0 <= a && a < len(epc.CurrentEpoch.ActiveIndices) ==> epc.CurrentEpoch.ActiveIndices[a] < len(flats))) ==> (out != nil && eqseq(currEpochParticipation, part_raw(st_curpart(state))))
+//@     invariant old(spec != nil && epc != nil && state != nil && epc.PreviousEpoch != nil && epc.CurrentEpoch != nil && len(flats) < 4611686018427387904 && epc.PreviousEpoch.Epoch < 4611686018427387904 && len(part_raw(st_prevpart(state))) == len(flats) && len(part_raw(st_curpart(state))) == len(flats) && (forall a :: {epc.PreviousEpoch.ActiveIndices[a]} 0 <= a && a < len(epc.PreviousEpoch.ActiveIndices) ==> epc.PreviousEpoch.ActiveIndices[a] < len(flats)) && (forall a :: {epc.CurrentEpoch.ActiveIndices[a]} 0 <= a && a < len(epc.CurrentEpoch.ActiveIndices) ==> epc.CurrentEpoch.ActiveIndices[a] < len(flats))) ==> (out.CurrEpochUnslashedTargetStake == part_sum2(flats, part_raw(st_curpart(state)), epc.CurrentEpoch.ActiveIndices, rangeindex + 1))
 
 //@ func ComputeFlagDeltas(ctx, spec, epc, attesterData, flag, weight, isInactivityLeak) (r0, err)
 //@   property C18 C02
